@@ -31,6 +31,9 @@ pub struct Ctx {
     pub body_hook: OnceLock<Box<dyn Fn(&Ctx, ActK) + Send + Sync>>,
     /// fn name -> ingredient index, discovered from events
     pub names: Mutex<std::collections::HashMap<u32, String>>,
+    /// ingredient indices of the struct ingredients (Ent, then Sym types in `Sym` order)
+    pub ent_ing: OnceLock<u32>,
+    pub sym_ing: OnceLock<[u32; 5]>,
 }
 
 impl Ctx {
@@ -48,6 +51,8 @@ impl Ctx {
             fault: crate::fault::Fault::default(),
             body_hook: OnceLock::new(),
             names: Mutex::new(Default::default()),
+            ent_ing: OnceLock::new(),
+            sym_ing: OnceLock::new(),
         })
     }
 
@@ -231,6 +236,19 @@ impl World {
         let cells: Vec<Cell> = (0..w.ctx.prog.ncells).map(|_| Cell::new(&w, 0, 0)).collect();
         let _ = w.ctx.keys.set(keys);
         let _ = w.ctx.cells.set(cells);
+        {
+            use salsa::plumbing::{Ingredient, ZalsaDatabase};
+            let ix = |i: salsa::IngredientIndex| salsa::verif::ingredient_index_u32(i);
+            let z = w.zalsa();
+            let _ = w.ctx.ent_ing.set(ix(Ent::ingredient(&w).ingredient_index()));
+            let _ = w.ctx.sym_ing.set([
+                ix(SymK1::ingredient(z).ingredient_index()),
+                ix(SymK2::ingredient(z).ingredient_index()),
+                ix(SymK3::ingredient(z).ingredient_index()),
+                ix(SymImm::ingredient(z).ingredient_index()),
+                ix(SymR::ingredient(z).ingredient_index()),
+            ]);
+        }
         w
     }
 
@@ -797,6 +815,24 @@ fn eval<'db>(db: &'db dyn Hdb, e: &Expr, cx: &Cx<'db>) -> u16 {
             r
         }
         Expr::SelfSym => cx.sym,
+        Expr::PeekZ(n, m, g) => {
+            let c = call_node(db, *n, 0);
+            ctx.log.push(Rec::Read(
+                ReadK::Call(fnk_of(ctx.prog.nodes[*n].kind), *n as u32, 0),
+                c,
+            ));
+            let g = eval(db, g, cx);
+            if c == 0 {
+                let r = call_node(db, *m, 0);
+                ctx.log.push(Rec::Read(
+                    ReadK::Call(fnk_of(ctx.prog.nodes[*m].kind), *m as u32, 0),
+                    r,
+                ));
+                (r & g) | g
+            } else {
+                c | g
+            }
+        }
         Expr::Acc(e) => {
             let v = eval(db, e, cx);
             let x = (act_tag(cx.act) << 16) | v as u32;
